@@ -124,12 +124,21 @@ func Read(r parser.ReadSeekSizer) (*Table, error) {
 			}
 		}
 
+		// Several mark glyph sets may share one coverage table.  Decode
+		// every coverage table only once.
+		sets := make(map[uint32]coverage.Set)
 		table.MarkGlyphSets = make([]coverage.Set, markGlyphSetCount)
 		for i := range table.MarkGlyphSets {
-			table.MarkGlyphSets[i], err = coverage.ReadSet(p, pos+int64(coverageOffsets[i]))
-			if err != nil {
-				return nil, err
+			offs := coverageOffsets[i]
+			set, seen := sets[offs]
+			if !seen {
+				set, err = coverage.ReadSet(p, pos+int64(offs))
+				if err != nil {
+					return nil, err
+				}
+				sets[offs] = set
 			}
+			table.MarkGlyphSets[i] = set
 		}
 	}
 
